@@ -35,6 +35,49 @@ FINDING_SHAPES = {
 }
 
 
+def after_failure_part(ctx):
+    """statements of a behaviour that was rejected must not take effect in the next one: after a compilation that
+    raised with value-producing operations pending, an accepted program is judged against the C reference"""
+    from . import c11, c14
+    from .. import boot, diff
+    from ..cref import operands_closure
+    from ..il import reader
+    c = boot.new_compiler()
+    resolver = diff.make_resolver(c)
+    subs = diff.bundled_subs()
+    fails = list(c14.FAILING) + list(c11.AFTER_FAILURE_FAIL) + ["{ int32_t k = RsV; if (k++ > 2) { goto out; } RxV = k; }",
+                                                                "{ int32_t k = RsV; int32_t j; j = k--, RdV = j; }"]
+    goods = ["{ int32_t k = RsV; k++; RdV = k; }", "{ int32_t k = RtV; if (k-- > 1) { RdV = k; } else { RdV = 7; } }",
+             "{ RdV = clz32(RsV) + 1; }", "{ int32_t k = 1; for (i = 0; i < 2; i++) { k = k * 3; } RdV = k++; ReV = k; }"]
+    for i, bad in enumerate(fails):
+        st, _ = progcheck.try_compile(c, bad)
+        if st == "ok":
+            ctx.count("after-failure: 'failing' program accepted")
+            continue
+        text = goods[i % len(goods)]
+        ctx.evaluations += 1
+        st, il = progcheck.try_compile(c, text)
+        if st != "ok":
+            ctx.failure("C05 after-failure: accepted program raises after a rejected one", {"failing": bad, "program": text, "error": il})
+            continue
+        ast = diff.parse_c(text)
+        try:
+            body = reader.parse_body(il)
+        except reader.ReadError as e:
+            ctx.failure("C05 after-failure: text unreadable", {"failing": bad, "program": text, "error": str(e)[:200]})
+            continue
+        for stt in diff.simple_states(operands_closure(ast, subs), 3, 31):
+            r, _ = progcheck.judge_state(ast, body, stt, resolver, subs)
+            if r is None:
+                ctx.nontriv(("after-failure", bad, text, run.h64(stt)))
+                continue
+            if r[0] == "discard":
+                ctx.discard(r[1])
+                continue
+            ctx.failure(f"C05 after-failure: {r[0]}", {"failing": bad, "program": text, "state": stt, "detail": r[1], "il": il})
+            break
+
+
 def run_check(ctx):
     ctx.rule = ("Hypothesis-generated statement sequences (nesting <= 3) x generated machine states; non-trivial = "
                 "distinct program containing an if or a for loop that was judged on >= 2 states")
@@ -43,6 +86,7 @@ def run_check(ctx):
                        "machine model: DESIGN.md section 4; C-undefined executions discarded"]
     progcheck.replay_known(ctx)
     progcheck.judge_shapes(ctx, "C05", FINDING_SHAPES)
+    after_failure_part(ctx)
     n, ns = (16000, 8) if ctx.tier == "thorough" else (640, 6)
     progcheck.run_gen(ctx, "C05", FEATURES, n, ns, depth=2, nest=3, lo=2, hi=5,
                       nontrivial=_nontrivial, classify=_classify, native_all=(ctx.tier == "thorough"))
